@@ -7,6 +7,7 @@
 mod checks;
 mod gen;
 mod minimise;
+mod mirror;
 mod oracle;
 mod prmcheck;
 mod prng;
@@ -85,6 +86,52 @@ fn main() {
                 },
                 None => {
                     env.say(&format!("replay: cannot read {path}"));
+                    2
+                }
+            }
+        }
+        Some("gen-mirror") => {
+            let prop = args.get(2).cloned().unwrap_or_default();
+            let n: u64 = args.get(3).and_then(|s| s.parse().ok()).unwrap_or(10);
+            let path = args.get(4).cloned().unwrap_or_default();
+            match mirror::gen_mirror(&prop, seed, n, &path) {
+                Ok(k) => {
+                    env.say(&format!("wrote {k} mirrored scenarios to {path}"));
+                    0
+                }
+                Err(e) => {
+                    env.say(&format!("gen-mirror failed: {e}"));
+                    2
+                }
+            }
+        }
+        Some("gen-wrappers") => {
+            let n: u64 = args.get(2).and_then(|s| s.parse().ok()).unwrap_or(10);
+            let path = args.get(3).cloned().unwrap_or_default();
+            match mirror::gen_wrapper_cases(seed, n, &path) {
+                Ok(k) => {
+                    env.say(&format!("wrote {k} wrapper cases to {path}"));
+                    0
+                }
+                Err(e) => {
+                    env.say(&format!("gen-wrappers failed: {e}"));
+                    2
+                }
+            }
+        }
+        Some("run-json") => {
+            // reference result of one scenario file (C20: with the fault region as an obstacle)
+            let path = args.get(2).cloned().unwrap_or_default();
+            match std::fs::read_to_string(&path).ok().and_then(|s| serde_json::from_str::<spec::Scenario>(&s).ok()) {
+                Some(mut scn) => {
+                    if scn.property == "C20" && scn.worlds.len() > 1 {
+                        scn.problems[0].world = 1;
+                    }
+                    env.say(&mirror::result_json(&scn).to_string());
+                    0
+                }
+                None => {
+                    env.say("run-json: cannot read scenario");
                     2
                 }
             }
